@@ -365,6 +365,11 @@ pub struct Curve2Spec {
     /// (position, exact?) duplicates injected into the input to exercise de-duplication
     #[serde(default)]
     pub dups: Vec<(u16, bool)>,
+    /// extra trailing samples close to the first point (offsets in units of tol), used with `ForceOpenInput`: the
+    /// input ends in a cluster of samples some of which are within tol of each other or of the start, which is where
+    /// de-duplication and closing interact
+    #[serde(default)]
+    pub seam_cluster: Vec<(f64, f64)>,
 }
 
 pub struct Built2 {
@@ -417,6 +422,28 @@ impl Curve2Spec {
                 (true, true)
             }
         };
+        if mode == CloseMode::ForceOpenInput && !self.seam_cluster.is_empty() {
+            // trailing cluster near the start; the expected vertices follow the documented construction: consecutive
+            // samples within tol of the last retained one are dropped, then the start is appended unless the last
+            // retained sample is already within tol of it
+            let mut input = pts.clone();
+            for (dx, dy) in &self.seam_cluster {
+                input.push([first[0] + dx * tol, first[1] + dy * tol]);
+            }
+            let mut kept: Vec<P2> = vec![];
+            for q in &input {
+                if kept.last().map(|l| d(l, q) > tol).unwrap_or(true) {
+                    kept.push(*q);
+                }
+            }
+            if kept.len() < 3 {
+                return None;
+            }
+            if d(&kept[0], kept.last().unwrap()) > tol {
+                kept.push(kept[0]);
+            }
+            return Some((crate::oracle::to_p2(&input), crate::oracle::to_p2(&kept), true, true, mode));
+        }
         // inject duplicates into the input only (processed from the back so indices stay valid)
         let mut ins: Vec<(usize, bool)> = self.dups.iter().map(|(i, e)| (crate::fw::idx(*i, input.len()), *e)).collect();
         ins.sort();
@@ -443,10 +470,10 @@ pub fn close_mode() -> BoxedStrategy<CloseMode> {
 
 /// curve spec with scale log-uniform in 10^[lo,hi]
 pub fn curve2_spec(nmin: usize, nmax: usize, lo: f64, hi: f64, with_dups: bool) -> BoxedStrategy<Curve2Spec> {
-    (unif(lo, hi), prop::sample::select(vec![1e-9, 1e-6, 1e-4]), close_mode(), prop::collection::vec((any::<u16>(), any::<bool>()), 0..4))
-        .prop_flat_map(move |(e, trel, mode, dups)| {
+    (unif(lo, hi), prop::sample::select(vec![1e-9, 1e-6, 1e-4]), close_mode(), prop::collection::vec((any::<u16>(), any::<bool>()), 0..4), prop_oneof![3 => Just(vec![]), 1 => prop::collection::vec((unif(-1.8, 1.8), unif(-1.8, 1.8)), 1..5)])
+        .prop_flat_map(move |(e, trel, mode, dups, seam)| {
             let scale = 10f64.powf(e);
-            polyline2(nmin, nmax, scale).prop_map(move |(_, pts)| Curve2Spec { pts, tol: trel * scale, mode, dups: if with_dups { dups.clone() } else { vec![] } })
+            polyline2(nmin, nmax, scale).prop_map(move |(_, pts)| Curve2Spec { pts, tol: trel * scale, mode, dups: if with_dups { dups.clone() } else { vec![] }, seam_cluster: if with_dups { seam.clone() } else { vec![] } })
         })
         .boxed()
 }
